@@ -238,10 +238,22 @@ def embedded_clock(case):
         await (time + (number + 0.25))
         log.append(('native', number, time.now))
 
+    async def paced():
+        # a pacemaker made now and first used later keeps time from its first use
+        box = [usim.interval(2).__aiter__()]
+        try:
+            await (time + 0.75)
+            for _ in range(3):
+                log.append(('paced', await box[0].__anext__()))
+            await box[0].aclose()
+        finally:
+            box.clear()
+
     async def main():
         async with Scope() as scope:
             for number in range(2):
                 scope.do(native(number))
+            scope.do(paced())
             await (time + enter_after)
             async with env:
                 log.append(('entered', env.now, time.now))
@@ -263,6 +275,8 @@ def embedded_clock(case):
             want.add(('timeout over', number, now, now))
     for number in range(2):
         want.add(('native', number, start + number + 0.25))
+    for number in range(3):
+        want.add(('paced', start + 0.75 + 2 * (number + 1)))
     what = 'environment(initial_time=%r) entered at %r in a simulation started at %r' % (
         initial, start + enter_after, start)
     if outcome[0] != 'ok':
